@@ -45,6 +45,14 @@ func genC23(rt *rapid.T) any {
 		sp := genC37d(rt).(*C37dPlan)
 		sp.Txs = true
 		sp.Readers = 0
+		sp.TxRounds = rapid.IntRange(0, 2).Draw(rt, "txrounds")
+		// chained transactions (a child spending its parent's output in the same block) are what
+		// the pool's bookkeeping has to get right while a block connects
+		for i := range sp.Tree.Steps {
+			if rapid.Bool().Draw(rt, "chainq") {
+				sp.Tree.Steps[i].Txs = append(sp.Tree.Steps[i].Txs, TxOp{Kind: "chain", A: rapid.IntRange(0, 7).Draw(rt, "ca"), B: rapid.IntRange(0, 7).Draw(rt, "cb"), C: rapid.IntRange(0, 5).Draw(rt, "cc")})
+			}
+		}
 		p.Sched = sp
 		p.TreePlan = TreePlan{Cfg: sp.Tree.Cfg} // the scheduled plan carries its own tree
 	}
